@@ -410,6 +410,7 @@ func runC09(c *Ctx) {
 }
 
 var c09Canaries = []Canary{
+	{Name: "r4-untyped-grace-period", ExpectKey: "C09.R5#cleanupTmp:removes-only", Edits: []Edit{{File: "fs/cleanup.go", Find: "\t\tif time.Since(info.ModTime()) > time.Hour {", Repl: "\t\tif time.Since(info.ModTime()) > 3600 {"}}},
 	{Name: "clean-writes-in-place", ExpectKey: "C09.R1#inplace", Edits: []Edit{{File: "commands/command_clean.go", Find: "		if err := os.Rename(tmpfile, mediafile); err != nil {\n			Panic(err, tr.Tr.Get(\"Unable to move %s to %s\", tmpfile, mediafile))\n		}", Repl: "		data, rerr := os.ReadFile(tmpfile)\n		if rerr != nil {\n			Panic(rerr, \"read\")\n		}\n		if err := os.WriteFile(mediafile, data, 0644); err != nil {\n			Panic(err, tr.Tr.Get(\"Unable to move %s to %s\", tmpfile, mediafile))\n		}"}}},
 	{Name: "copy-temp-in-store", ExpectKey: "C09.R3#temp-in-store", Edits: []Edit{{File: "lfs/util.go", Find: "	tmp, err := TempFile(cfg, filepath.Base(dst))", Repl: "	tmp, err := tools.TempFile(filepath.Dir(dst), filepath.Base(dst), cfg)"}}},
 	{Name: "copy-in-place", ExpectKey: "C09.R1#inplace", Edits: []Edit{{File: "lfs/util.go", Find: "	tmp, err := TempFile(cfg, filepath.Base(dst))", Repl: "	tmp, err := os.Create(dst)"}}},
